@@ -153,13 +153,14 @@ pub fn run_c14(sc: &HistSc, st: &mut Stats) -> super::c06::HistOutcome {
     set_hash_config(hash_mode_of(&sc.hash_mode), sc.hash_seed);
     let mut regs: [Object; REGISTERS] = [Object::new(), Object::new(), Object::new()];
     let mut pool: Vec<Value> = vec![];
+    let mut maps: [Option<json_syntax::CodeMap>; REGISTERS] = [None, None, None];
     let mut nontrivial = false;
     let mut d = Digest::default();
     let mut rng = Rng::new(sc.twin_seed);
     for (step, op) in sc.ops.iter().enumerate() {
         // keep the history's own hash configuration for objects the history creates
         set_hash_config(hash_mode_of(&sc.hash_mode), sc.hash_seed ^ (step as u64) << 32);
-        match apply_real(op, &mut regs) {
+        match apply_real(op, &mut regs, &mut maps) {
             Applied::Ok(_) => {}
             Applied::Panicked(_) => { st.note("an object operation panicked (a C06 matter); run abandoned", 0, || op.to_json().to_string_compact()); break; }
         }
